@@ -1261,6 +1261,14 @@ Proof.
   pose proof (lk_push_new HUnknown s) as N1.
   set (new := next s) in *. set (s1 := push_st HUnknown s) in *.
   assert (Nx1 : next s1 = Pos.succ new) by reflexivity.
+  apply bind_inv in H as (tb & s1b & Htb & H). apply find_type_inv in Htb as [-> _].
+  destruct (is_basic tb).
+  { (* a basic type: the new node gets it, nothing else is written *)
+    apply bind_inv in H as (ub & sb & Hb & H). unfold set_type in Hb.
+    destruct (update_self new (fun n => mkNode tb (nrep n) (nsize n) (ncons n)) _ _ _ _ (fun _ => eq_refl) W1 N1 eq_refl Hb)
+      as (Wb & Nxb & Ob & Nb).
+    injection H as _ <-. split; [assumption|]. destruct F1 as [F1a F1b]. split; [rewrite Nxb; exact F1a|].
+    intros i Hi. assert (i <> new) by (unfold new; lia). rewrite Ob by assumption. now apply F1b. }
   apply bind_inv in H as (n & s1' & Hn & H). apply find_node_inv in Hn as [-> _].
   apply bind_inv in H as ([cs m2] & s2 & Hf & H).
   assert (FF : framed (foldM (fun acc c => r <- copy_constr R c (snd acc);; ret (cinsert (fst r) (fst acc), snd r))
@@ -1346,6 +1354,20 @@ Proof.
   pose proof (lk_push_new HUnknown s) as N1.
   set (new := next s) in *. set (s1 := push_st HUnknown s) in *.
   assert (Nx1 : next s1 = Pos.succ new) by reflexivity.
+  apply bind_inv in H as (tb & s1b & Htb & H). apply find_type_inv in Htb as [-> Htb].
+  destruct (is_basic tb).
+  { apply bind_inv in H as (ub & sb & Hb & H). unfold set_type in Hb.
+    destruct (update_self new (fun n => mkNode tb (nrep n) (nsize n) (ncons n)) _ _ _ _ (fun _ => eq_refl) W1 N1 eq_refl Hb)
+      as (Wb & Nxb & Ob & Nb).
+    injection H as <- _ <-.
+    destruct (head_of_rep _ _ _ W H0) as [Hro Rro]. destruct (root_of _ _ _ W H0) as (nro & Lro & Ero).
+    assert (Lt : ro < new) by (destruct W as [W1' _]; eapply W1'; eassumption).
+    assert (L1 : lk s1 ro = Some nro) by (destruct F1 as [_ F1]; rewrite F1 by assumption; assumption).
+    assert (Hs : head s old = Some tb).
+    { rewrite <- Hro. unfold head in Htb |- *. rewrite L1 in Htb. rewrite Ero in Htb. rewrite L1 in Htb.
+      rewrite Lro, Ero, Lro. assumption. }
+    exists tb, tb. split; [assumption|]. split; [|split; [apply same_shape_refl|reflexivity]].
+    unfold head. rewrite Nb. cbn [nrep]. rewrite Nb. reflexivity. }
   apply bind_inv in H as (n & s1' & Hn & H). apply find_node_inv in Hn as [-> _].
   apply bind_inv in H as ([cs m2] & s2 & Hf & H).
   assert (FF : framed (foldM (fun acc c => r <- copy_constr R c (snd acc);; ret (cinsert (fst r) (fst acc), snd r))
